@@ -183,7 +183,8 @@ def encode(node):
     elif typ == BOOL:
         body = _s.pack('!Q', 1 if v else 0)
     elif typ == TEXT:
-        body = v.encode('utf-8')
+        # (lone surrogates stand for raw bytes: text that is not UTF-8)
+        body = v.encode('utf-8', 'surrogateescape')
     else:
         body = bytes(v)
     head = bytes([(tag >> 16) & 0xff, (tag >> 8) & 0xff, tag & 0xff, typ])
